@@ -1,0 +1,101 @@
+// Copyright 2021 TiKV Project Authors.
+//
+// Licensed under the Apache License, Version 2.0 (the "License");
+// you may not use this file except in compliance with the License.
+// You may obtain a copy of the License at
+//
+//     http://www.apache.org/licenses/LICENSE-2.0
+//
+// Unless required by applicable law or agreed to in writing, software
+// distributed under the License is distributed on an "AS IS" BASIS,
+// See the License for the specific language governing permissions and
+// limitations under the License.
+
+//go:build verif
+// +build verif
+
+// Machine-checked contracts for the replica strategy and the replica / rule checkers (checked by /verif/govc;
+// comment-only file).
+package checker
+
+// Comparers and scoring closures are pure functions of the stores.
+//@ opaque github.com/tikv/pd/server/schedule/filter::IsolationComparer, github.com/tikv/pd/server/schedule/filter::RegionScoreComparer, github.com/tikv/pd/server/schedule/filter::NewIsolationFilter, github.com/tikv/pd/server/schedule/filter::NewSpecialUseFilter, github.com/tikv/pd/server/schedule/filter::NewLocationImprover
+
+//@ pure sid(s *core.StoreInfo) = ite(s.meta == nil, 0, s.meta.Id)
+//@ pure sstate(s *core.StoreInfo) = ite(s.meta == nil, 0, s.meta.State)
+
+// SelectStoreToAdd: the chosen store is one of the cluster's stores, in state Up, not low on space, and does not
+// already hold a peer of the region (its id is not among the region's store ids).
+//@ func (*ReplicaStrategy).SelectStoreToAdd
+//@   props C10
+//@   dispatch Filter.Target passT
+//@   requires s != nil && s.cluster != nil && s.region != nil && s.region.meta != nil
+//@   at PickFirst 1 after assert [picked-from-cluster-stores] r0 != nil ==> ufb("clusterStore", s.cluster, r0)
+//@   at PickFirst 1 after assert [picked-is-up] r0 != nil ==> sstate(r0) == 0
+//@   at PickFirst 1 after assert [picked-holds-no-peer] r0 != nil ==> !hasPeerOn(s.region, sid(r0))
+//@   ensures [adds-only-on-an-up-store-without-a-peer] result != 0 ==> !hasPeerOn(s.region, result) && (exists st *core.StoreInfo :: ufb("clusterStore", s.cluster, st) && sid(st) == result && sstate(st) == 0)
+//@   modifies ghost evres
+
+// The operator constructors are specified and verified under C08/C09; here only what is passed to them matters.
+//@ opaque github.com/tikv/pd/server/schedule/operator::CreateAddPeerOperator, github.com/tikv/pd/server/schedule/operator::CreateRemovePeerOperator, github.com/tikv/pd/server/schedule/operator::CreateMovePeerOperator
+//@ opaque github.com/tikv/pd/server/config::(*PersistOptions).IsMakeUpReplicaEnabled, github.com/tikv/pd/server/config::(*PersistOptions).IsRemoveExtraReplicaEnabled, github.com/tikv/pd/server/config::(*PersistOptions).IsLocationReplacementEnabled, github.com/tikv/pd/server/config::(*PersistOptions).GetMaxReplicas, github.com/tikv/pd/server/config::(*PersistOptions).GetLocationLabels, github.com/tikv/pd/server/config::(*PersistOptions).GetIsolationLevel
+//@ opaque github.com/tikv/pd/pkg/cache::(*TTLUint64).Put
+
+// SelectStoreToFix / SelectStoreToImprove choose through SelectStoreToAdd.
+//@ func (*ReplicaStrategy).SelectStoreToFix
+//@   props C10
+//@   requires s != nil && s.cluster != nil && s.region != nil && s.region.meta != nil && len(coLocationStores) > 0
+//@   ensures [adds-only-on-an-up-store-without-a-peer] result != 0 ==> !hasPeerOn(s.region, result) && (exists st *core.StoreInfo :: ufb("clusterStore", s.cluster, st) && sid(st) == result && sstate(st) == 0)
+//@   modifies coLocationStores[*], ghost evres
+//@ func (*ReplicaStrategy).SelectStoreToImprove
+//@   props C10
+//@   requires s != nil && s.cluster != nil && s.region != nil && s.region.meta != nil && len(coLocationStores) > 0
+//@   ensures [adds-only-on-an-up-store-without-a-peer] result != 0 ==> !hasPeerOn(s.region, result) && (exists st *core.StoreInfo :: ufb("clusterStore", s.cluster, st) && sid(st) == result && sstate(st) == 0)
+//@   modifies coLocationStores[*], ghost evres
+
+// A replica is made up only while the region has fewer peers than configured, on the store the strategy chose.
+//@ func (*ReplicaChecker).checkMakeUpReplica
+//@   props C10
+//@   requires r != nil && r.opts != nil && r.cluster != nil && region != nil && region.meta != nil && r.regionWaitingList != nil
+//@   at CreateAddPeerOperator 1 assert [adds-on-the-chosen-store] arg3 != nil && arg3.StoreId == callres("SelectStoreToAdd", 1) && arg3.StoreId != 0 && arg2 == region && len(region.meta.Peers) < callres("GetMaxReplicas", 1)
+//@   modifies *
+
+// A healthy peer is removed only while the region has more voters than configured.
+//@ func (*ReplicaChecker).checkRemoveExtraReplica
+//@   props C10
+//@   requires r != nil && r.opts != nil && r.cluster != nil && region != nil && region.meta != nil && r.regionWaitingList != nil
+//@   at CreateRemovePeerOperator 1 assert [only-when-more-voters-than-configured] len(region.voters) > callres("GetMaxReplicas", 1) && arg3 == region && arg4 == callres("SelectStoreToRemove", 1) && arg4 != 0
+//@   modifies *
+
+// A down / offline peer is removed outright only with surplus voters; otherwise it is REPLACED (add, then remove)
+// by a peer on the store the strategy chose.
+//@ func (*ReplicaChecker).fixPeer
+//@   props C10
+//@   requires r != nil && r.opts != nil && r.cluster != nil && region != nil && region.meta != nil && r.regionWaitingList != nil
+//@   requires [peer-store-known] ufb("storeKnown", r.cluster, storeID) && hasPeerOn(region, storeID)
+//@   at CreateRemovePeerOperator 1 assert [only-when-more-voters-than-configured] len(region.voters) > callres("GetMaxReplicas", 1) && arg4 == storeID
+//@   at CreateMovePeerOperator 1 assert [replaces-on-the-chosen-store] len(region.voters) <= callres("GetMaxReplicas", 1) && arg4 == storeID && arg5 != nil && arg5.StoreId == callres("SelectStoreToFix", 1) && arg5.StoreId != 0
+//@   modifies *
+
+//@ func (*ReplicaChecker).checkLocationReplacement
+//@   props C10
+//@   requires r != nil && r.opts != nil && r.cluster != nil && region != nil && region.meta != nil
+//@   at CreateMovePeerOperator 1 assert [moves-the-worst-to-a-better-store] arg4 == callres("SelectStoreToRemove", 1) && arg4 != 0 && arg5 != nil && arg5.StoreId == callres("SelectStoreToImprove", 1) && arg5.StoreId != 0
+//@   modifies *
+
+// ---- placement-rule checker ----
+//@ pure satisfied(rf *placement.RuleFit) = len(rf.Peers) == rf.Rule.Count && len(rf.PeersWithDifferentRole) == 0
+// An orphan peer is removed only when every rule is satisfied (count and roles), and it is the first orphan.
+//@ func (*RuleChecker).fixOrphanPeers
+//@   props C10
+//@   requires c != nil && region != nil && fit != nil && (forall i :: {fit.RuleFits[i]} 0 <= i && i < len(fit.RuleFits) ==> fit.RuleFits[i] != nil && fit.RuleFits[i].Rule != nil) && (forall i :: {fit.OrphanPeers[i]} 0 <= i && i < len(fit.OrphanPeers) ==> fit.OrphanPeers[i] != nil)
+//@   loop 1 invariant forall j :: {fit.RuleFits[j]} 0 <= j && j <= rangeindex ==> satisfied(fit.RuleFits[j])
+//@   at CreateRemovePeerOperator 1 assert [only-when-every-rule-is-satisfied] (forall j :: {fit.RuleFits[j]} 0 <= j && j < len(fit.RuleFits) ==> satisfied(fit.RuleFits[j])) && len(fit.OrphanPeers) > 0 && arg4 == fit.OrphanPeers[0].StoreId && arg3 == region
+//@   modifies ghost evres
+// A rule peer is added on the store the strategy chose (the rule's label constraints are extra filters of it).
+//@ opaque (*RuleChecker).getRuleFitStores, github.com/tikv/pd/server/schedule/placement::(PeerRoleType).MetaPeerRole, github.com/tikv/pd/server/schedule/operator::(*Operator).SetPriorityLevel, github.com/tikv/pd/server/schedule/filter::NewLabelConstaintFilter
+//@ func (*RuleChecker).addRulePeer
+//@   props C10
+//@   requires c != nil && c.cluster != nil && region != nil && region.meta != nil && rf != nil && rf.Rule != nil && c.regionWaitingList != nil
+//@   at CreateAddPeerOperator 1 assert [adds-on-the-chosen-store] arg3 != nil && arg3.StoreId == callres("SelectStoreToAdd", 1) && arg3.StoreId != 0 && arg2 == region
+//@   modifies *
